@@ -157,7 +157,8 @@ def check_config(ctx, F, tag):
             wv = core(b.term_of_operand(dict(zip(st["rv"]["fields"], st["rv"]["ops"]))["width"]))
             ok = ok and nz and le and wv[:2] == ("param", wp)
         # the failing edges return Err
-        errs = [bi for bi, si, st in b.stmts() if st["s"] == "assign" and st["lhs"]["l"] == 0 and st["rv"]["r"] == "agg" and st["rv"].get("vname") == "Err"]
+        errs = [bi for bi, si, st in b.stmts() if st["s"] == "assign" and not st["lhs"]["p"] and st["rv"]["r"] == "agg" and st["rv"].get("vname") == "Err"
+                and st["rv"].get("def") == "std::result::Result"]
         ctx.ob("C09.R2.width-predicate", fn + tag, loc(b.raw["span"]), ok and bool(errs), "guard-dominance",
                "construction dominated by width != 0 && width <= WORD_BITS with the checked value stored: %s; refusing edge returns Err: %s" % (ok, bool(errs)))
     check_wm_load_width(ctx, F, tag)
